@@ -303,4 +303,5 @@ LEVEL_NOTE = "Trusted: urllib.parse, str.lower model, requests.Request (E4), pyv
 TECHNIQUE = "contract-based deductive verification: AST->z3 VC generation with z3 strings on the real sanitizer (pyvc); exhaustive small-scope enumeration for sanitize_url"
 
 # `st run` (the wiring of the command-line options into the run configuration) is verified in C13's module; its C15_ clauses belong to this property: the same job runs here.
-SHARED_JOBS = [("C13", "schemathesis.cli.commands.run:run#wiring")]
+# initialize_handlers (C16 module): the cassette writers are created with the user's sanitization switch
+SHARED_JOBS = [("C13", "schemathesis.cli.commands.run:run#wiring"), ("C16", "schemathesis.cli.commands.run.executor:initialize_handlers")]
